@@ -155,6 +155,11 @@ class CppBase(CBase):
             return
         lctx = genrun.lang_context("cpp", options={"std": std})
         self.h = harness_cpp.CppHarness(lctx.get_target_language(), self.msgs)
+        for r in roots:
+            for T in parsed[r]:
+                if isinstance(T, pydsdl.ServiceType):
+                    self.h.port_owner[key(T.request_type)] = T
+                    self.h.port_owner[key(T.response_type)] = T
         top = [T for r in roots for T in parsed[r]]
         src = os.path.join(self.dir, "harness.cpp")
         with open(src, "w") as f:
